@@ -107,6 +107,12 @@ def regex_cases(ctx, feat):
         if v[0] == 0:
             feat["regex_build_error"] = feat.get("regex_build_error", 0) + 1
             continue
+        if v[4] and v[4] != v[2]:
+            bad = [k for k in range(len(v[2])) if v[2][k] != v[4][k]][:3]
+            ctx.violation("RegexMatcher::find_at(input, at) differs from the regex library's find_at on the whole input "
+                          "(look-around must be evaluated against the whole input, not the resumption point)",
+                          dict(kind=1302, line=lines[i], case=dict(cfg=c, pattern=pat, input=inp.decode("latin1"), dotall=dot),
+                               positions=bad, matcher=[v[2][k] for k in bad], regex_crate=[v[4][k] for k in bad]))
         if not v[1]:
             feat["regex_line_strategy"] = feat.get("regex_line_strategy", 0) + 1
             continue
